@@ -274,18 +274,20 @@ class _VersionIndependentUnmarshaller:
 
     def t_long(self, save_ref, bytes_for_s=False):
         n = unpack("<i", self.fp.read(4))[0]
+        # Python 3 has a single integer type; only a Python 2 "long" is shown with an "L" suffix.
+        to_long = long if self.version_tuple < (3, 0) else int
         if n == 0:
-            return self.r_ref(long(0), save_ref)
+            return self.r_ref(to_long(0), save_ref)
         size = abs(n)
-        d = long(0)
+        d = to_long(0)
         for j in range(0, size):
             md = int(unpack("<h", self.fp.read(2))[0])
             # This operation and turn "d" from a long back
             # into an int.
             d += md << j * 15
-            d = long(d)
+            d = to_long(d)
         if n < 0:
-            d = long(d * -1)
+            d = to_long(d * -1)
 
         return self.r_ref(d, save_ref)
 
